@@ -202,14 +202,22 @@ func init() {
 			v := fx.s.define("atoi", "Int", fmt.Sprintf("(ite (atoi_ok %s) (atoi_val %s) 0)", s, s))
 			return []Val{{t: v}, {t: fx.errOf("atoi_err", s, "(atoi_ok "+s+")")}}
 		}}
-	externals["strconv.ParseInt"] = &extEntry{doc: "ParseInt(s, 10, 32): err == nil iff parseint32_ok(s); then the result fits int32; \"\" is not ok",
+	externals["strconv.ParseInt"] = &extEntry{doc: "ParseInt(s, base, bits): err == nil iff parseint<bits>_ok(s) (a different function of the text for a base other than 10); then the result fits the bit size; \"\" is not ok",
 		fn: func(fr *Frame, ins ssa.Instruction, c *ssa.CallCommon, args []Val, st *State) []Val {
 			fx := fr.fx
 			bits := "64"
 			if bc, ok := c.Args[2].(*ssa.Const); ok {
 				bits = bc.Value.ExactString()
 			}
+			base := "x"
+			if bc, ok := c.Args[1].(*ssa.Const); ok {
+				base = bc.Value.ExactString()
+			}
 			okf, valf := "parseint"+bits+"_ok", "parseint"+bits+"_val"
+			if base != "10" {
+				// another base is another function of the text (the decimal-digits fact below is then not assumed)
+				okf, valf = "parseint"+bits+"b"+base+"_ok", "parseint"+bits+"b"+base+"_val"
+			}
 			fx.ufun(okf, []string{"String"}, "Bool")
 			fx.ufun(valf, []string{"String"}, "Int")
 			s := args[0].t
@@ -220,19 +228,22 @@ func init() {
 				rng = intRange(types.Typ[types.Int64], "("+valf+" "+s+")")
 			}
 			fx.s.assume(st.guard, rng)
-			fx.s.assume(st.guard, "(not ("+okf+" \"\"))")
+			fx.s.global(okf+"!blank", "(assert (not ("+okf+" \"\")))")
 			fx.s.global("isDigits", `(define-fun isDigits ((s String)) Bool (or (= s "") (>= (str.to_int s) 0)))`)
-			fx.s.assume(st.guard, fmt.Sprintf("(=> (and (isDigits %s) (< 0 (str.len %s)) (<= (str.len %s) 9)) (and (%s %s) (= (%s %s) (str.to_int %s))))", s, s, s, okf, s, valf, s, s))
+			if base == "10" {
+				fx.s.assume(st.guard, fmt.Sprintf("(=> (and (isDigits %s) (< 0 (str.len %s)) (<= (str.len %s) 9)) (and (%s %s) (= (%s %s) (str.to_int %s))))", s, s, s, okf, s, valf, s, s))
+			}
 			v := fx.s.define("parseint", "Int", fmt.Sprintf("(ite (%s %s) (%s %s) 0)", okf, s, valf, s))
 			return []Val{{t: v}, {t: fx.errVal(st, "("+okf+" "+s+")")}}
 		}}
-	externals["strconv.ParseFloat"] = &extEntry{doc: "ParseFloat(s, 64): a function of s only: err == nil iff parsefloat_ok(s), value parsefloat_val(s)",
+	externals["strconv.ParseFloat"] = &extEntry{doc: "ParseFloat(s, bits): a function of (s, bits) only: err == nil iff parsefloat_ok(s, bits), value parsefloat_val(s, bits)",
 		fn: func(fr *Frame, ins ssa.Instruction, c *ssa.CallCommon, args []Val, st *State) []Val {
 			fx := fr.fx
-			fx.ufun("parsefloat_ok", []string{"String"}, "Bool")
-			fx.ufun("parsefloat_val", []string{"String"}, "F64")
+			fx.ufun("parsefloat_ok", []string{"String", "Int"}, "Bool")
+			fx.ufun("parsefloat_val", []string{"String", "Int"}, "F64")
 			s := args[0].t
-			return []Val{{t: "(parsefloat_val " + s + ")"}, {t: fx.errVal(st, "(parsefloat_ok "+s+")")}}
+			b := args[1].t
+			return []Val{{t: "(parsefloat_val " + s + " " + b + ")"}, {t: fx.errVal(st, "(parsefloat_ok "+s+" "+b+")")}}
 		}}
 	externals["strconv.FormatInt"] = &extEntry{doc: "FormatInt(i, 10) is the decimal notation of i",
 		fn: func(fr *Frame, ins ssa.Instruction, c *ssa.CallCommon, args []Val, st *State) []Val {
@@ -266,6 +277,15 @@ func init() {
 	externals["time.Unix"] = &extEntry{doc: "Unix(sec, nsec) denotes the instant sec*1e9+nsec ns after the epoch, in Local",
 		fn: func(fr *Frame, ins ssa.Instruction, c *ssa.CallCommon, args []Val, st *State) []Val {
 			return []Val{{t: fmt.Sprintf("(mktime (+ (* %s 1000000000) %s) time_Local)", args[0].t, args[1].t)}}
+		}}
+	externals["(*archive/zip.File).Open"] = &extEntry{doc: "f.Open(): (a non-nil io.ReadCloser, nil) or (nil, a non-nil error); no effect on verified state; panics iff f is nil",
+		fn: func(fr *Frame, ins ssa.Instruction, c *ssa.CallCommon, args []Val, st *State) []Val {
+			fx := fr.fx
+			fr.safety("safe:nil", ins, "Open on "+fr.describe(c.Args[0]), st, not(eq(args[0].t, "nilref")))
+			ok := fx.s.freshConst("zipopen_ok", "Bool")
+			rc := fx.s.freshConst("zipopen_rc", "Iface")
+			fx.s.assume(st.guard, fmt.Sprintf("(= %s (not (= %s niliface)))", ok, rc))
+			return []Val{{t: rc}, {t: fx.errVal(st, ok)}}
 		}}
 	externals["(time.Time).In"] = &extEntry{doc: "t.In(loc) is the same instant presented in loc; panics iff loc is nil",
 		fn: func(fr *Frame, ins ssa.Instruction, c *ssa.CallCommon, args []Val, st *State) []Val {
